@@ -175,6 +175,14 @@ func init() {
 		"slices.SortFunc":       sortPerm,
 		"slices.SortStableFunc": sortPerm,
 		"slices.Reverse":        sortPerm,
+		// in-place editors of their argument: the slots of the argument's array are unknown afterwards and so is the
+		// returned slice (contents and length are not modelled - a function that uses them is decided by its other clauses)
+		"slices.Compact":     sliceEdit,
+		"slices.CompactFunc": sliceEdit,
+		"slices.Delete":      sliceEdit,
+		"slices.DeleteFunc":  sliceEdit,
+		"slices.Insert":      sliceEdit,
+		"slices.Replace":     sliceEdit,
 		"container/heap.Push": heapOp("push"),
 		"container/heap.Pop":  heapOp("pop"),
 		"container/heap.Fix":  heapOp("fix"),
@@ -624,4 +632,24 @@ func havocAllCall(fr *Frame, st *State, a []Val, in ssa.Instruction) Val {
 	rs := fr.freshResults(sig, "decode")
 	u.note("decoder call writes through its target: whole modelled heap havoced")
 	return resultVal(u, sig, rs)
+}
+
+// sliceEdit: slices.Compact/Delete/Insert/... rewrite the backing array of their first argument and return a slice of
+// unknown length over it.
+func sliceEdit(fr *Frame, st *State, a []Val, in ssa.Instruction) Val {
+	u := fr.u
+	ci := in.(ssa.CallInstruction)
+	sv := ci.Common().Args[0]
+	slT, ok := sv.Type().Underlying().(*types.Slice)
+	if !ok {
+		u.havocAll(st)
+		return fr.havocVal(ci.Common().Signature().Results().At(0).Type(), "sliceedit")
+	}
+	x := fr.get(sv)
+	h := u.arrHeap(slT.Elem())
+	es := u.enc.sortOf(slT.Elem())
+	newRow := u.enc.freshConst("edited", "(Array Int "+es+")")
+	u.heapStoreAt(st, h, app("sl_base", x.T), newRow)
+	u.note("slices.Compact/Delete/Insert/Replace: the argument's array is unknown afterwards, the result is an unconstrained slice")
+	return fr.havocVal(slT, "sliceedit")
 }
